@@ -35,6 +35,43 @@ CHECKS = {
         note=RT_NOTE, design="§6 C18"),
 }
 
+TV_NOTE = ("Trusted: the program generator and its two renderings (go-co source vs reference on refco differ only in how Yield/YieldFrom/return are spelled), "
+           "the goroutine hand-off reference runtime refco, the event runtime tr, the VerifCompile hook (same rewriter/optimizer objects as Compile). "
+           "The Coq compiler model is under construction (DESIGN.md status); until its theorem covers this property the level is translation validation.")
+
+
+def tv(technique, text, design):
+    return dict(category="translation_validation", technique=technique, text=text, note=TV_NOTE, design=design)
+
+
+CHECKS.update({
+    "C01": tv("differential translation validation: real rewriter + real seq vs reference coroutine rendering (native Go on refco) of grammar-generated generator bodies; Coq proof of the runtime layer (C08) underneath",
+              "Every generated program is rendered twice from one abstract syntax tree, compiled by the real rewriter, run under steering tapes and compared event by event with the reference rendering; failures are shrunk. Known findings F1/F2 are reported as such.", "§6 C01"),
+    "C02": tv("differential translation validation on full event logs (every user-code evaluation interleaved with consumer marks, incl. generator call and advances after exhaustion)",
+              "Lock-step and demand-driven execution are observed as equality of the interleaved event log of compiled vs reference runs; prefix closure covers every truncation point.", "§6 C02"),
+    "C03": tv("differential translation validation with locals, shadowing and closures observed through logged values; optimiser-sensitive corpus",
+              "Programs declare/shadow/update/capture integer locals at random positions relative to yields; values are observed via events and yields.", "§6 C03"),
+    "C04": tv("differential translation validation of range loops (7 kinds x 6 forms x body shapes) in a go 1.22 user module; iterator layer proved in Coq (C10)",
+              "Range statements over string/slice/array/map/channel/integer/[]any with all variable forms, mutation of the ranged collection, break/continue, nesting in closures; the range expression logs its evaluation.", "§6 C04"),
+    "C05": tv("differential translation validation of YieldFrom over library generators (empty, straight-line, loop, self-recursive) at random positions",
+              "Delegates log their own events, so order, number and timing of delegate steps are part of the compared log.", "§6 C05"),
+    "C06": tv("differential translation validation of consumer-side range over iterators (:= and = forms, break/continue/return, nesting) against the pull-loop reference",
+              "for v (:)= range g inside generator bodies over library generators; reference is the explicit MoveNext/Current loop.", "§6 C06"),
+    "C07": tv("two-stage differential: optimised output vs unoptimised intermediate stage of the same VerifCompile run vs source, on random programs and an optimiser-sensitive corpus",
+              "Both stages are built and driven with the same tapes; event logs must be identical; the optimised stage must build (import clean-up).", "§6 C07"),
+    "C11": tv("acceptance check: generated supported programs must compile without compiler panic and the output must build; behaviour compared too",
+              "Programs of the whole supported grammar plus a regression corpus of shapes that used to crash; untagged rejections are violations.", "§6 C11"),
+    "C12": tv("construct injection: one unsupported construct at a random statement position (and negative controls inside nested plain closures); verdict rejected-or-equal",
+              "13 unsupported constructs x random positions; 5 negative controls that must be accepted and preserved.", "§6 C12"),
+    "C13": tv("three-way differential on non-generator code: source package (native, stub API) vs unoptimised stage vs generated package, under go 1.21 and go 1.22 module semantics",
+              "Bystander functions with eta-shaped closures over every callee form, package-level declarations, closures inside generator bodies.", "§6 C13"),
+    "C15": tv("byte comparison of real Compile outputs across repeated runs, placements among unrelated files/packages, renamed siblings, stale outputs on disk; hook output == Compile output",
+              "Run-to-run determinism is sampled (3 runs); placement independence and gensym uniqueness are checked on generated packages with sequential and nested ranges.", "§6 C15"),
+    "C16": tv("directory snapshots around the real cmd/cogen on generated package layouts, then go build / go test / go vet -tags co, then a second run",
+              "Layouts with names containing an earlier _co, test files, plain siblings, API-less co files, blank imports, sub-packages, stale <dir>_tmp.", "§6 C16"),
+})
+CHECKS["C18"]["technique"] += "; compiled generators with panicking atoms vs reference rendering"
+
 NOT_YET = {}
 
 
